@@ -37,7 +37,7 @@ Record sys := mkSys {
 
 Definition fresh_world (t : N) (nd : node_cfg) : world :=
   mkWorld t [] [] [] 1 (nd_cfg nd) sess_init false None [] [] [] [] None false [] (nd_insts nd) [] [] []
-          (nd_draws nd) [].
+          (nd_draws nd) [] [].
 
 Record sys_scenario := mkSysSc {
   ss_a : node_cfg; ss_b : node_cfg;
